@@ -4,7 +4,9 @@ package c01
 import (
 	"encoding/json"
 	"fmt"
+	"bytes"
 	"math"
+	"math/rand"
 	"os"
 	"sync"
 	"sync/atomic"
@@ -176,6 +178,9 @@ func exec(s *Scenario, guard bool) (ms []core.Mismatch) {
 			}
 		}
 	}
+	if s.Space == "scene" && len(s.P)+len(s.Q) > 2 {
+		// scenes are multi-contour by construction
+	}
 	if s.Space == "tri" { // deterministic space: known findings are recorded per input
 		for i := range ms {
 			ms[i].Key = ms[i].Signature + "|" + s.P.SVG() + "|" + s.Q.SVG() + "|" + s.Emb.Name
@@ -318,8 +323,9 @@ func (d Driver) Run(c *core.Ctx) error {
 	// 1. model level: the laws of the region algebra on the expected cells (small exhaustive space)
 	c.TLC(tlc.Opts{Module: "BoolOps", Config: cfg(2, 3, 1, "random", c.Pick(60, 250), "bool", true), Seed: c.Seed, Coverage: c.Thorough()}, true)
 
-	// 2. spec -> code
-	if c.Thorough() {
+	// 2. spec -> code   (development aid: VERIF_C01_ONLY=traces skips this stage)
+	if os.Getenv("VERIF_C01_ONLY") == "traces" {
+	} else if c.Thorough() {
 		r.runGen("tri", tlc.Opts{Module: "BoolOps", Config: cfg(2, 3, 1, "all", 0, "bool", false), Timeout: 30 * time.Minute}) // all 531 441 pairs of <=3-point contours on 3x3
 		r.runGen("pent", tlc.Opts{Module: "BoolOps", Config: cfg(4, 5, 1, "random", 500, "bool", false), Seed: c.Seed, Timeout: 30 * time.Minute})
 		r.runGen("two", tlc.Opts{Module: "BoolOps", Config: cfg(3, 4, 2, "random", 120, "bool", false), Seed: c.Seed + 1, Timeout: 30 * time.Minute})
@@ -331,5 +337,119 @@ func (d Driver) Run(c *core.Ctx) error {
 	}
 	c.Count(0, r.nontriv, 0)
 	c.SetExtra("pairs", r.n)
+
+	// 3. code -> spec: larger random scenes recorded from the real operations, judged by Trace_BoolOps
+	d.traces(c)
 	return nil
+}
+
+// ---- code -> spec ---------------------------------------------------------------------------------------------
+
+const sceneN = 8 // lattice 0..8 (scaled by 15: coordinates <= 120, safe for 32-bit cross products)
+
+type sceneEv struct {
+	P   latgeo.LPath     `json:"p"`
+	Q   latgeo.LPath     `json:"q"`
+	Obs map[string][]int `json:"obs"`
+}
+
+func randScenePath(r *rand.Rand) latgeo.LPath {
+	var p latgeo.LPath
+	for c := 0; c < 1+r.Intn(4); c++ {
+		var ct latgeo.LContour
+		x0, y0, w := r.Intn(sceneN-2), r.Intn(sceneN-2), 3+r.Intn(sceneN-2)
+		for v := 0; v < 3+r.Intn(5); v++ {
+			ct = append(ct, [2]int{min(sceneN, x0+r.Intn(w)), min(sceneN, y0+r.Intn(w))})
+		}
+		p = append(p, ct)
+	}
+	return p
+}
+
+func sceneCfg() string {
+	return fmt.Sprintf("SPECIFICATION TSpec\nCONSTANTS N = %d\n K = 0\n NC = 0\n Mode = \"trace\"\n Num = 0\n What = \"bool\"\nCHECK_DEADLOCK FALSE\n", sceneN)
+}
+
+func (d Driver) traces(c *core.Ctx) {
+	// sample points of the trace module (header line of BoolOps with N = sceneN)
+	hres := c.TLC(tlc.Opts{Module: "BoolOps", Config: fmt.Sprintf("SPECIFICATION Spec\nCONSTANTS N = %d\n K = 3\n NC = 1\n Mode = \"random\"\n Num = 1\n What = \"bool\"\nCHECK_DEADLOCK FALSE\n", sceneN), Seed: 1, Workers: 1}, true)
+	var hdr Line
+	for _, l := range hres.Lines {
+		var x Line
+		if json.Unmarshal(l, &x) == nil && x.Hdr {
+			hdr = x
+		}
+	}
+	if hdr.S == 0 {
+		c.Broken("no header from BoolOps for the trace scenes")
+		return
+	}
+	pts := latgeo.SamplePts(hdr.Samples, hdr.S, latgeo.Identity)
+	n := c.Pick(300, 6000)
+	r := rand.New(rand.NewSource(c.Seed*104729 + 1))
+	var evs []sceneEv
+	var buf bytes.Buffer
+	enc := json.NewEncoder(&buf)
+	for i := 0; i < n; i++ {
+		ev := sceneEv{P: randScenePath(r), Q: randScenePath(r), Obs: map[string][]int{}}
+		bad := false
+		for _, op := range ops {
+			var res *canvas.Path
+			if ok, _ := latgeo.Try(func() { res = apply(op, latgeo.Build(ev.P, latgeo.Identity), latgeo.Build(ev.Q, latgeo.Identity)) }); !ok {
+				bad = true // a panic is not expressible as an observation: judged through the scenario path below
+				break
+			}
+			w, err := latgeo.Windings(res, pts, 8)
+			if err != nil {
+				bad = true
+				break
+			}
+			o := make([]int, len(w))
+			for k := range w {
+				if w[k] != 0 {
+					o[k] = 1
+				}
+			}
+			ev.Obs[op] = o
+		}
+		if bad {
+			// report directly (expectations come from the spec in expect mode below): log with empty observations so that it is rejected
+			for _, op := range ops {
+				ev.Obs[op] = make([]int, len(pts))
+				for k := range ev.Obs[op] {
+					ev.Obs[op][k] = 7
+				}
+			}
+		}
+		evs = append(evs, ev)
+		enc.Encode(ev)
+	}
+	files := map[string][]byte{"trace_boolops.ndjson": buf.Bytes()}
+	rejected := 0
+	// one parallel pass: every event is judged; events that disagree come back with the spec's expectation
+	res := c.TLC(tlc.Opts{Module: "Trace_BoolOps", Files: files, Config: sceneCfg(), Timeout: 30 * time.Minute}, true)
+	if res.OK && res.Distinct != int64(2*n) {
+		c.Broken(fmt.Sprintf("Trace_BoolOps judged %d states, expected %d", res.Distinct, 2*n))
+	}
+	for _, ln := range res.Lines {
+		var l Line
+		if json.Unmarshal(ln, &l) != nil || len(l.P) == 0 {
+			continue
+		}
+		rejected++
+		s := &Scenario{Kind: "bool", S: hdr.S, Samples: hdr.Samples, P: l.P, Q: l.Q, Emb: latgeo.Identity, Space: "scene", F: l.F,
+			Exp: map[string][]int{"and": l.And, "or": l.Or, "xor": l.Xor, "not": l.Not, "div": l.Div}}
+		ms := exec(s, true)
+		if len(ms) == 0 {
+			c.Broken(fmt.Sprintf("Trace_BoolOps rejected the scene P=%s Q=%s but replaying it as a scenario shows no mismatch", l.P.SVG(), l.Q.SVG()))
+			continue
+		}
+		c.Report(s, ms)
+	}
+	c.Count(int64(5*n), 0, int64(n-rejected))
+	c.SetExtra("trace_scenes", n)
+	c.SetExtra("trace_scenes_rejected", rejected)
+	if len(evs) > 0 {
+		c.Sample(map[string]any{"recorded_scene": map[string]string{"p": evs[0].P.SVG(), "q": evs[0].Q.SVG()}})
+	}
 }
